@@ -349,7 +349,10 @@ class Model:
                     if v is None:
                         raise Unsupported('no var')
                     if isinstance(v, str) and spec:
-                        raise Unsupported('spec on string')
+                        # width/alignment of a string counts characters; a value holding characters that HTML mode
+                        # stores as entities has no mode-independent width
+                        if any(c in v for c in '&<>\'"#') or not spec.lstrip('*<>^0123456789.') == '':
+                            raise Unsupported('spec on string')
                     txt += '{%s%s}' % (name, (':' + spec) if spec else '')
                     out += format(v, spec)
             if case == 1:
@@ -810,7 +813,10 @@ class Gen:
             for _ in range(r.randrange(1, 4)):
                 if names and r.random() < 0.7:
                     n = r.choice(names)
-                    spec = '' if isinstance(self.m.vars[n], str) else r.choice(('', '04X', '02x', '5', '08b', 'd', '03'))
+                    if isinstance(self.m.vars[n], str):
+                        spec = r.choice(('', '', '', '<6', '>5', '^7', '*<4', '8', '.2'))
+                    else:
+                        spec = r.choice(('', '04X', '02x', '5', '08b', 'd', '03', '<5', '>6', '^7', '*<4', '0>4', '<4X', '>06x', '*^9b'))
                     parts.append(['f', n, spec])
                 else:
                     parts.append(['t', self.text(1, 4, 'abc XYZ09.:-')])
